@@ -353,6 +353,12 @@ pub fn run(tier: Tier) -> i32 {
                         let drv = Driver { clock: Some(now), permute: true, ..Driver::default() };
                         let (v, _) = world::verify_with(&block, world::owner_map(&[owner]), dir, drv);
                         judge(acc, "top-level", &text, dname, dns, &v, &|| json!({"level": "top", "expires": text, "delta": dname, "delta_ns": dns.to_string()}));
+                        // the same under a requested summary name (a public parameter of the call)
+                        if dns > 0 {
+                            let drv = Driver { clock: Some(now), permute: true, ..Driver::default() };
+                            let (vn, _) = world::verify_named_with(&block, world::owner_map(&[owner]), dir, Some(["release", ""][(dns.unsigned_abs() % 2) as usize]), drv);
+                            judge(acc, "top-level-named", &text, dname, dns, &vn, &|| json!({"level": "top-named", "expires": text, "delta": dname, "delta_ns": dns.to_string()}));
+                        }
                     }
                     if *ci % 97 == 0 {
                         acc.sample(|| json!({"level": "top", "expires": text, "deltas": DELTAS.iter().map(|d| d.0).collect::<Vec<_>>()}));
@@ -418,7 +424,7 @@ pub fn run(tier: Tier) -> i32 {
     c.selftest("leg-accepts-unexpired:wall-clock", wall_ok > 0, "the hooks-off binary accepted no layout at all");
     c.extra.insert("wall_clock_leg".into(), json!({"cases": wall.len(), "accepted": wall_ok, "time_zones": crate::plain::TIME_ZONES, "note": "hooks-off binary, real clock, run once per process time zone; confirms the clock seam changes nothing and that the clock read itself is zone-independent"}));
     c.rule = format!(
-        "grid: {} base instants x {} offset notations x {} sub-second spellings x {} separator/case styles (+ leap-second spelling) x {} verification times (expiry + delta); each point is one in_toto_verify run with the clock seam set; the same grid on a layout with a key table, a step with rules and a satisfying link (every {5} notation); sub-layout grid = same expiry texts on a delegated layout under an unexpired parent (every {} notation); non-trivial = notations the reference reader understands",
+        "grid: {} base instants x {} offset notations x {} sub-second spellings x {} separator/case styles (+ leap-second spelling) x {} verification times (expiry + delta); each point is one in_toto_verify run with the clock seam set (expired points also under a requested summary name); the same grid on a layout with a key table, a step with rules and a satisfying link (every {5} notation); sub-layout grid = same expiry texts on a delegated layout under an unexpired parent (every {} notation); non-trivial = notations the reference reader understands",
         BASES.len(), OFFSETS.len(), FRACS.len(), STYLES.len(), DELTAS.len(), sub_every
     ) + "; wall-clock leg: expiry = real clock + {-1y,-1d,-1h,-2s,+1h,+1d,+1y} and the absolute years 0002, 1000, 1700 in 4 offset notations, hooks-off binary, under 4 process time zones";
     c.bound_completed = "complete grid".into();
@@ -437,7 +443,10 @@ pub fn replay(case: &Value) -> Value {
     let Some(now) = from_ns(exp + dns) else { return json!({"error": "now not representable", "violation": null}) };
     let dir = util::fresh_dir("c06r");
     let drv = Driver { clock: Some(now), permute: true, ..Driver::default() };
-    let v = if case["level"] == "full" {
+    let v = if case["level"] == "top-named" {
+        let Some(block) = signed_with_expiry(text, &fx.top, owner) else { return json!({"error": "unparseable", "violation": null}) };
+        world::verify_named_with(&block, world::owner_map(&[owner]), &dir, Some("release"), drv).0
+    } else if case["level"] == "full" {
         let Some(block) = signed_with_expiry(text, &fx.full, owner) else { return json!({"error": "unparseable", "violation": null}) };
         world::verify_with(&block, world::owner_map(&[owner]), &fx.full_dir, drv).0
     } else if case["level"] == "sub" {
